@@ -365,12 +365,21 @@ func genFit(c *gal.Ctx) {
 // HasBIOSPolicy, PolicyAllowsTXT, FITVectorIsSet, HasFIT
 func genFitMisc(c *gal.Ctx) {
 	r := c.Rng
-	for i := 0; i < c.Scale(24, 200); i++ {
+	nrand := c.Scale(24, 200)
+	for i := 0; i < nrand+8; i++ {
 		var t []fe
 		for j := r.Intn(5); j > 0; j-- {
 			t = append(t, fe{T: []uint8{9, 9, 10, 7, 1}[r.Intn(5)], A: 0xFFF00000 + uint64(r.Intn(256)), S: 0, V: uint16(r.Intn(3))})
 		}
 		mode := r.Intn(2)
+		if i >= nrand { // 0, 1, 2, 3 BIOS policy records between other entries, both TXT modes
+			k := i - nrand
+			mode = k & 1
+			t = []fe{{T: 7, A: 0xFFF00000, S: 1, V: 0x100}}
+			for j := 0; j < k/2; j++ {
+				t = append(t, fe{T: 9, A: 0xFFF00100 + uint64(j)*16, S: 0, V: 1}, fe{T: 1, A: 0xFFE00000, S: 0, V: 0x100})
+			}
+		}
 		test.SetFITStateForC05Verif(0, toTable(t))
 		p := &test.PreSet{TXTMode: tools.TXTMode(mode)}
 		got := run3(func() (bool, error, error) { return test.HasBIOSPolicy(newHW(), p) })
@@ -384,41 +393,26 @@ func genFitMisc(c *gal.Ctx) {
 		}
 
 		// PolicyAllowsTXT on the same table
-		h := newHW()
-		var rdB uint8
-		rdOK := r.Intn(5) != 0
-		rdB = uint8(r.Intn(256))
-		first := -1
-		for j, e := range t {
-			if e.T == 10 {
-				first = j
-				break
-			}
+		addPolicyTXT(c, "fit_policy_txt", t, r.Intn(5) != 0, uint8(r.Intn(256)), p)
+	}
+	// PolicyAllowsTXT: every decision of the first TXT policy record (version 0 / 1 / other, byte
+	// readable or not, bit 0 of the byte against all other bits), a second record that must not matter
+	for _, b := range []uint8{0, 1, 2, 3, 0x80, 0xFE, 0xFF, 0x55, 0xAA} {
+		rec := fe{T: 10, A: 0xFFF00010, S: 0, V: 1}
+		addPolicyTXT(c, "fit_policy_txt_v1", []fe{{T: 7, A: 0xFFF00000, S: 1, V: 0x100}, rec}, true, b, &test.PreSet{})
+		addPolicyTXT(c, "fit_policy_txt_v1", []fe{rec, {T: 10, A: 0xFFF00020, S: 0, V: 2}}, true, b, &test.PreSet{})
+	}
+	for _, v := range []uint16{0, 1, 2, 0x100} {
+		rec := fe{T: 10, A: 0xFFF00010, S: 0, V: v}
+		addPolicyTXT(c, "fit_policy_txt_version", []fe{rec}, false, 1, &test.PreSet{})
+		addPolicyTXT(c, "fit_policy_txt_version", []fe{{T: 9, A: 0xFFF00000, S: 0, V: 1}, rec, {T: 10, A: 0xFFF00020, S: 0, V: 1}}, true, 1, &test.PreSet{})
+	}
+	for i := 0; i < c.Scale(16, 160); i++ {
+		var t []fe
+		for j := 1 + r.Intn(3); j > 0; j-- {
+			t = append(t, fe{T: []uint8{10, 10, 9, 7}[r.Intn(4)], A: 0xFFF00000 + uint64(r.Intn(256)), S: 0, V: uint16(r.Intn(3))})
 		}
-		if rdOK && first >= 0 {
-			h.mapMem(t[first].A, []byte{rdB})
-		}
-		got = run3(func() (bool, error, error) { return test.PolicyAllowsTXT(h, p) })
-		d = map[string]interface{}{"check": "PolicyAllowsTXT", "fit": t, "readable": rdOK, "byte": rdB, "got": got}
-		idx = c.Add("fit_policy_txt", fmt.Sprintf("CPolicyTXT %s %s %s", optZ(rdOK, uint64(rdB)), tblLit(t), got.lit()), d, first >= 0)
-		var want verd
-		switch {
-		case first < 0:
-			want = verd{OK: true}
-		case t[first].V == 0:
-			want = verd{E2: true}
-		case t[first].V == 1 && !rdOK:
-			want = verd{E2: true}
-		case t[first].V == 1:
-			want = verd{OK: rdB&1 == 1}
-		default:
-			want = verd{E1: true}
-		}
-		if got.Panic == want.Panic && got.OK == want.OK && got.E1 == want.E1 && got.E2 == want.E2 {
-			c.OracleOK()
-		} else {
-			c.OracleFail(idx, fmt.Sprintf("PolicyAllowsTXT: expected %+v, got %+v", want, got), siteFit+":PolicyAllowsTXT", d)
-		}
+		addPolicyTXT(c, "fit_policy_txt_random", t, r.Intn(6) != 0, uint8(r.Intn(4))|uint8(r.Intn(2))<<7, &test.PreSet{})
 	}
 
 	// FITVectorIsSet
@@ -497,5 +491,42 @@ func genFitMisc(c *gal.Ctx) {
 		default:
 			c.OracleFail(idx, fmt.Sprintf("HasFIT: table inside [ptr, 4G-40h) and readable and non-empty = %v, got %+v (%d headers)", spec, got, len(hdrs)), siteFit+":HasFIT", d)
 		}
+	}
+}
+
+// PolicyAllowsTXT on table t; the byte behind the FIRST TXT policy record is rdB (readable iff rdOK)
+func addPolicyTXT(c *gal.Ctx, kind string, t []fe, rdOK bool, rdB uint8, p *test.PreSet) {
+	test.SetFITStateForC05Verif(0, toTable(t))
+	h := newHW()
+	first := -1
+	for j, e := range t {
+		if e.T == 10 {
+			first = j
+			break
+		}
+	}
+	if rdOK && first >= 0 {
+		h.mapMem(t[first].A, []byte{rdB})
+	}
+	got := run3(func() (bool, error, error) { return test.PolicyAllowsTXT(h, p) })
+	d := map[string]interface{}{"check": "PolicyAllowsTXT", "fit": t, "readable": rdOK, "byte": rdB, "got": got}
+	idx := c.Add(kind, fmt.Sprintf("CPolicyTXT %s %s %s", optZ(rdOK, uint64(rdB)), tblLit(t), got.lit()), d, first >= 0)
+	var want verd
+	switch {
+	case first < 0:
+		want = verd{OK: true}
+	case t[first].V == 0:
+		want = verd{E2: true}
+	case t[first].V == 1 && !rdOK:
+		want = verd{E2: true}
+	case t[first].V == 1:
+		want = verd{OK: rdB&1 == 1}
+	default:
+		want = verd{E1: true}
+	}
+	if got.Panic == want.Panic && got.OK == want.OK && got.E1 == want.E1 && got.E2 == want.E2 {
+		c.OracleOK()
+	} else {
+		c.OracleFail(idx, fmt.Sprintf("PolicyAllowsTXT: expected %+v, got %+v", want, got), siteFit+":PolicyAllowsTXT", d)
 	}
 }
